@@ -52,6 +52,8 @@ class SInt:
 
     def z(self):
         if isinstance(self.v, int):
+            if self.ty == "nat":
+                return z3.IntVal(self.v)
             return z3.BitVecVal(self.v, INT_BITS[self.ty])
         return self.v
 
@@ -77,6 +79,14 @@ class SBool:
 
 
 def mk_int(v, ty):
+    if ty == "nat":
+        # mathematical integer (used for durations / instants: never touched by MIR arithmetic)
+        if isinstance(v, int):
+            return SInt(v, ty)
+        v = z3.simplify(v)
+        if z3.is_int_value(v):
+            return SInt(v.as_long(), ty)
+        return SInt(v, ty)
     if isinstance(v, int):
         bits = INT_BITS[ty]
         v &= (1 << bits) - 1
@@ -431,6 +441,13 @@ def strip_angle(text):
     return text
 
 
+def norm_ty(ty):
+    """type text without lifetimes / module paths / whitespace: `&'a crate::output::OutputStream` → `&OutputStream`"""
+    ty = re.sub(r"'[a-z_][a-z0-9_]*\s*", "", ty)
+    ty = re.sub(r"\b(?:[a-z_][a-z0-9_]*::)+", "", ty)
+    return re.sub(r"\s+", "", ty)
+
+
 def base_name(ty):
     """`&'a mut foo::Bar<T>` → `Bar`"""
     ty = ty.strip()
@@ -473,6 +490,7 @@ class Program:
                 if mo:
                     self.closures[mo.group(0)] = name
         self.impl_index = {}
+        self.impl_index_full = {}
         if src_root:
             load_enums(src_root)
             load_structs(src_root)
@@ -510,6 +528,8 @@ class Program:
                 if " for " in body:
                     t, y = body.split(" for ", 1)
                     trait, ty = base_name(t), base_name(y)
+                    targs = t[t.index("<") + 1:t.rindex(">")] if "<" in t else ""
+                    self.impl_index_full.setdefault((trait, norm_ty(targs), norm_ty(y), method), []).append(name)
                 else:
                     ty = base_name(body)
             else:
@@ -527,6 +547,15 @@ class Program:
         name = re.sub(r"'[a-z_][a-z0-9_]*\b(?!')", "", fname)
         mo = re.match(r"<(.+) as (.+)>::([A-Za-z_][A-Za-z0-9_]*)(::<.*>)?$", name)
         if mo:
+            selfty, trait, method = mo.group(1), mo.group(2), mo.group(3)
+            targs = trait[trait.index("<") + 1:trait.rindex(">")] if "<" in trait else ""
+            full = self.impl_index_full.get((base_name(trait), norm_ty(targs), norm_ty(selfty), method))
+            if full and len(full) == 1:
+                return full[0]
+            if base_name(trait) == "Into" and method == "into":
+                full = self.impl_index_full.get(("From", norm_ty(selfty), norm_ty(targs), "from"))
+                if full and len(full) == 1:
+                    return full[0]
             key = (base_name(mo.group(2)), base_name(mo.group(1)), mo.group(3))
         else:
             segs = strip_generics(name)
@@ -630,6 +659,10 @@ class Ctx:
 
     # -- symbolic inputs ---------------------------------------------------------------------
     def sym_int(self, name, ty):
+        if ty == "nat":
+            v = z3.Int(name)
+            self.add(v >= 0)
+            return SInt(v, ty)
         return SInt(z3.BitVec(name, INT_BITS[ty]), ty)
 
     def sym_bool(self, name):
@@ -1036,6 +1069,9 @@ class Ctx:
             return m
         if f is None and re.match(r"(?:[A-Za-z_][A-Za-z0-9_]*::)*[A-Z][A-Za-z0-9]*$", name) and name.split("::")[-1] in UNIT_STRUCTS:
             return Agg(name.split("::")[-1], None, [])
+        if f is None and re.match(r"(?:<.*>::)?(?:[A-Za-z_][A-Za-z0-9_]*::)*[A-Za-z_][A-Za-z0-9_]*$", name):
+            # a named constant of a foreign crate: unknown value (any use of it in arithmetic is refused later)
+            return Opaque("const " + name)
         raise Unsupported("constant %r" % text)
 
     # -- rvalues -------------------------------------------------------------------------------
@@ -1176,6 +1212,8 @@ class Ctx:
             raise Unsupported("bool binop %s" % name)
         if not (isinstance(a, SInt) and isinstance(b, SInt)):
             raise Unsupported("binop %s on %r, %r" % (name, a, b))
+        if a.ty == "nat" or b.ty == "nat":
+            raise Unsupported("MIR arithmetic on a modelled duration/instant")
         ty = a.ty
         bits = INT_BITS[ty]
         signed = ty in SIGNED
